@@ -1,3 +1,5 @@
+//go:build !no_c08_fuzz
+
 package props
 
 import "testing"
